@@ -412,6 +412,31 @@ Proof.
 Qed.
 Print Assumptions C19_lru_interleaving_size_within_max_at_rest.
 
+(* ------------------------- round 5: several decorated functions ------------------------- *)
+(* However the wrappers were made (bare decorator, decorator with options, one configured decorator object applied to
+   several functions), each decorated function has its own cache: in a program with n decorated functions (state = the
+   list of their caches, common clock, [MCall j a] = a call of function j) the cache of function j and everything function
+   j returns are exactly what function j alone does on its own calls and the clock advances ([mproj j h]).  With the
+   theorems above (which speak about one function) this gives: no call ever receives a value another decorated
+   function produced, and function j is invoked exactly when ITS cache holds no unexpired entry. *)
+Theorem C19_sic_decorated_functions_are_independent :
+  forall (A K R : Type) (key : A -> K) (keqb : K -> K -> bool) (f : nat -> A -> N -> R) (valid : option Z)
+         (t0 : Z) (n : nat) (h : list (@mev A)) (j : nat), j < n ->
+  let res := multi_run (msic_call key keqb f valid) sic_tick (repeat (sic_init t0) n) h in
+  nth_error (fst res) j = Some (fst (sic_run key keqb (f j) valid (sic_init t0) (mproj j h))) /\
+  outs_of j (snd res) = snd (sic_run key keqb (f j) valid (sic_init t0) (mproj j h)).
+Proof. exact sic_functions_independent. Qed.
+Print Assumptions C19_sic_decorated_functions_are_independent.
+
+Theorem C19_lru_decorated_functions_are_independent :
+  forall (A K R : Type) (key : A -> K) (keqb : K -> K -> bool) (f : nat -> A -> N -> R) (valid : option Z) (mx : nat)
+         (t0 : Z) (n : nat) (h : list (@mev A)) (j : nat), j < n ->
+  let res := multi_run (mlru_call key keqb f mx valid) lru_tick (repeat (lru_init t0) n) h in
+  nth_error (fst res) j = Some (fst (lru_run key keqb (f j) mx valid (lru_init t0) (mproj j h))) /\
+  outs_of j (snd res) = snd (lru_run key keqb (f j) mx valid (lru_init t0) (mproj j h)).
+Proof. intros A K R key keqb f valid mx. exact (lru_functions_independent A K R key keqb f valid mx). Qed.
+Print Assumptions C19_lru_decorated_functions_are_independent.
+
 (* ------------------------- non-vacuity ------------------------- *)
 Definition ex_a : carg := ([1%Z], []).
 Definition ex_b : carg := ([0%Z], []).
@@ -530,4 +555,13 @@ Example ex_forest_same_key_reentry_is_most_recent :
       (lx_items (fst (lrx_run ckey_of ckeqb cf 2 (Some 2%Z)
               (xl [XCall ex_c (xl [XCall ex_c XNil false; XCall ex_b XNil false]) false]) (lx_init 1000))))
   = [ckey_of ex_b; ckey_of ex_c].
+Proof. reflexivity. Qed.
+
+(* round 5: two decorated functions called with equal arguments: each computes its own value and is then served from
+   its own cache *)
+Example ex_two_decorated_functions :
+  map (fun x => (fst x, o_hit (snd x), snd (o_res (snd x))))
+      (snd (multi_run (msic_call ckey_of ckeqb mcf None) sic_tick (repeat (sic_init 1000) 2)
+              [MCall 0 ex_a; MCall 1 ex_a; MCall 0 ex_a; MCall 1 ex_a; MCall 1 ex_b; MCall 0 ex_a]))
+  = [(0, false, 0%N); (1, false, 0%N); (0, true, 0%N); (1, true, 0%N); (1, false, 1%N); (0, true, 0%N)].
 Proof. reflexivity. Qed.
